@@ -100,6 +100,12 @@ fn generate(rng: &mut Rng, index: u64) -> ConnScenario {
     for v in 0..12 {
         menu.push((0, 5, v)); // Encryption Response variants
     }
+    for w in 0..8 {
+        menu.push((0, 6, w)); // the transport breaks on the w-th server write
+    }
+    for fi in 0..frames.len() {
+        menu.push((fi, 7, 0)); // the client resets the connection right after this frame
+    }
     let (fi, class, par) = menu[((index / 4) % menu.len() as u64) as usize];
     let f = &frames[fi];
     let len = (f.end - f.start) as usize;
@@ -138,6 +144,15 @@ fn generate(rng: &mut Rng, index: u64) -> ConnScenario {
         }
         4 => {
             sc.client.mutations.push(Mutation { frame: fi, op: MutOp::WireFlip { off: rng.usize_below(len), bit: rng.below(8) as u8 } });
+        }
+        6 => {
+            for _ in 0..par {
+                sc.wplan.push(crate::pipe::WRule::Accept { max: 1_000_000 });
+            }
+            sc.wplan.push(crate::pipe::WRule::Broken);
+        }
+        7 => {
+            sc.client.close_after = Some((fi + 1, true));
         }
         _ => {
             sc.client.enc = match par {
@@ -186,6 +201,14 @@ pub fn check(sc: &ConnScenario, out: &ConnOutcome, rep: &mut RunReport) {
         }
         if out.pipe.reads_after_eof > 1000 {
             rep.violate("terminates_after_eof", format!("{} reads after the end of stream", out.pipe.reads_after_eof));
+        }
+    }
+    if out.faults.contains_key("write_broken_pipe") {
+        if out.result == "Ok" || out.result == "Hung" {
+            rep.violate("broken_transport_ends_connection", format!("a server write failed with BrokenPipe but the handler ended {}", out.result));
+        }
+        if out.faults.get("write_broken_pipe").copied().unwrap_or(0) > 3 {
+            rep.violate("broken_transport_ends_connection", format!("the handler kept writing after BrokenPipe ({} failed writes)", out.faults["write_broken_pipe"]));
         }
     }
     for m in &sc.client.mutations {
@@ -237,7 +260,7 @@ impl Check for C04 {
         "fault_enumeration"
     }
     fn rule_text(&self) -> String {
-        "four honest transcripts (status; login; transfer; transfer with valid cookies - each through the configuration phase with two ignorable packets) with exactly one mutation enumerated by run index over every frame: outer length set to -1 / 0 / -2^31 / 2^31-1 / 2097152 / max / max+1 / len+-1 (prefix delivered alone, body 10 s later); truncation at every byte offset followed by EOF or reset; every byte offset replaced by VarInt -1 / 2^31-1 / -2^31 / over-long zero / six-byte VarInt / 00 / 7f / 80 / ff / invalid UTF-8 with the outer length repaired; 1-300 random bytes appended after the frame; a bit flipped on the wire (ciphertext once encrypted); 12 Encryption Response variants (garbage of 0/1/127/128/129/1000 bytes, secrets of 0/15/17/32 bytes, zero token, other key); maximum frame 300 / 1024 / 10000 / 100000; a third of the runs under random segmentation. Non-trivial = the mutation was applied to a frame that was actually sent; distinct = distinct (event-order trace, mutation) hash.".into()
+        "four honest transcripts (status; login; transfer; transfer with valid cookies - each through the configuration phase with two ignorable packets) with exactly one mutation enumerated by run index over every frame: a BrokenPipe on the n-th server write; a client reset after any frame; outer length set to -1 / 0 / -2^31 / 2^31-1 / 2097152 / max / max+1 / len+-1 (prefix delivered alone, body 10 s later); truncation at every byte offset followed by EOF or reset; every byte offset replaced by VarInt -1 / 2^31-1 / -2^31 / over-long zero / six-byte VarInt / 00 / 7f / 80 / ff / invalid UTF-8 with the outer length repaired; 1-300 random bytes appended after the frame; a bit flipped on the wire (ciphertext once encrypted); 12 Encryption Response variants (garbage of 0/1/127/128/129/1000 bytes, secrets of 0/15/17/32 bytes, zero token, other key); maximum frame 300 / 1024 / 10000 / 100000; a third of the runs under random segmentation. Non-trivial = the mutation was applied to a frame that was actually sent; distinct = distinct (event-order trace, mutation) hash.".into()
     }
     fn assumptions(&self) -> Vec<String> {
         vec![
@@ -250,7 +273,7 @@ impl Check for C04 {
     }
     fn count(&self, tier: Tier) -> u64 {
         match tier {
-            Tier::Quick => 300_000,
+            Tier::Quick => 150_000,
             Tier::Thorough => 8_000_000,
         }
     }
